@@ -360,7 +360,7 @@ func c10Run(c *mon.Ctx, idx int) {
 				c.Count("long_inputs")
 				return
 			}
-			s = strings.Repeat("(", 10) + "a == 1" + strings.Repeat(")", 10)
+			s = strings.Repeat("(", 10) + "a == 1 and b != 2 and c in d" + strings.Repeat(")", 10)
 		}
 		if k >= 8 {
 			c.Risk(fmt.Sprintf("unlimited-parse expensive-valid-%d (must survive)", k))
